@@ -467,6 +467,18 @@ def case_nested(R):
             fail_if(fails, PROPERTY, "nested:grad", "cotangent of the nested measure's nu differs from central differences", np.asarray(G.measure.nu), ref, tol=1e-5, params=params)
         except Exception as e:
             fails.append(failure(PROPERTY, "nested:grad", f"raised: {type(e).__name__}: {str(e)[:200]}", params=params))
+        # deepcopy is deep: changing the original's nested measure in place afterwards does not change the copy
+        try:
+            import copy
+            base3 = base(1.0); t3 = mk(base3)
+            before = np.asarray(t3.integrate("x"))
+            t3c = copy.deepcopy(t3)
+            base3.normalize(); t3.measure.normalize()
+            fail_if(fails, PROPERTY, "nested:deepcopy", "the deep copy changed when the original's nested measure was normalised in place", np.asarray(t3c.integrate("x")), before, params=params)
+            if t3c.measure is t3.measure:
+                fails.append(failure(PROPERTY, "nested:deepcopy", "deepcopy shares the nested measure object with the original", params=params))
+        except Exception as e:
+            fails.append(failure(PROPERTY, "nested:deepcopy", f"raised: {type(e).__name__}: {str(e)[:200]}", params=params))
         # one-sided intervals (an infinite limit): gradients w.r.t. precision, nu of the base measure and the finite limit
         for side, kw in (("lower-only", dict(lower_limit=J(0.2 * np.ones((R, 1))))), ("upper-only", dict(upper_limit=J(0.7 * np.ones((R, 1)))))):
             mk1 = lambda L, nu: gt_trunc.TruncatedGaussianMeasure(measure=gt_measure.GaussianMeasure(Lambda=L, nu=nu, ln_beta=b1.ln_beta), **kw)
